@@ -193,6 +193,12 @@ open TongoGen.TlbTypes in
 theorem impl_eq_spec_WalletV5R1Body : implementsSpec env desc_wallet_MessageV5 Spec.WalletV5R1Body = true := by
   decide +kernel
 
+
+/-! highload wallet v2: the body after the signature -/
+open TongoGen.TlbTypes in
+theorem impl_eq_spec_HighloadV2Body :
+    implementsSpec env desc_wallet_HighloadV2Message Spec.HighloadV2Body = true := by decide +kernel
+
 /-- **impl_eq_spec_hashmapE**: a Go `HashmapE[K, V]` against `HashmapE n X` of the schema. The matcher asks for the
 key width `n`, a key descriptor that implements the schema's key type and a value descriptor that implements `X`;
 then every in-domain dictionary (empty or not) is written as `hme_empty$0` / `hme_root$1 root:^(Hashmap n X)` where the
